@@ -134,9 +134,32 @@ def sample_pair(rng, maxlen):
     return a, (mutate_string(rng, a, 'aeiou ') if rng.random() < 0.5 else b), 'words'
 
 
+def long_pairs(rng, n):
+    """pairs of long strings (100-300 characters) whose minimal number of changed characters passes the limits of narrow
+    integer cells (255 / 256): dissimilar random text, two different letters repeated with a common marker near the end,
+    and mutated copies"""
+    out = [('a' * 128 + 'cz', 'b' * 127 + 'cy', 'long'), ('x' * 200 + 'k', 'y' * 60 + 'k' + 'y' * 140, 'long')]
+    low = 'abcdefghijklmnopqrstuvwxyz'
+    while len(out) < n:
+        r = rng.random()
+        if r < 0.4:
+            out.append((rand_string(rng, low, 110, 260), rand_string(rng, low, 110, 260), 'long'))
+        elif r < 0.7:
+            k, m = rng.randint(100, 200), rng.randint(100, 200)
+            mark = rand_string(rng, 'cde', 1, 3)
+            out.append(('a' * k + mark + rand_string(rng, 'az', 0, 3), 'b' * m + mark + rand_string(rng, 'by', 0, 3), 'long'))
+        else:
+            s0 = rand_string(rng, 'abcd', 130, 280)
+            t0 = s0
+            for _ in range(rng.randint(1, 40)):
+                t0 = mutate_string(rng, t0, 'abcd')
+            out.append((s0, t0, 'long'))
+    return out[:n]
+
+
 def gen_cases(tier, rng):
     """[(s, t, family)]: exhaustive small-scope streams first, then the sampled stream."""
-    cases = []
+    cases = long_pairs(rng, 10 if tier == 'quick' else 120)
     if tier == 'quick':
         ab = all_strings('ab', 5)                          # 63 strings, all 3969 ordered pairs
         cases += [(s, t, 'exhaustive-ab') for s in ab for t in ab]
